@@ -28,6 +28,14 @@ chk('C05',
     COMMON_NOTE, 'bounded-exhaustive explicit-state enumeration of shorthand sentences; metamorphic + reference-model oracle on the real reader',
     'DESIGN.md section 4 C05')
 
+chk('C07',
+    'Explicit-state enumeration of all connected labelled graphs within the bound (every node pair decided: absent or a bond order; quick: all 4-node graphs '
+    'with orders 0-2 x all name assignments over {A,B} x 3 key relabelings, 4-node graphs with orders 1,3,4, all 5-node graphs with orders 1-2 (<=2 non-single); '
+    'thorough: 4 nodes orders 0-4, 5 nodes orders 0-2, 6 nodes; seed slice: dense 7-node graphs reaching >=10 open ring markers). Each graph goes through the '
+    'real writer and the real reader and is compared up to isomorphism with names and orders.',
+    COMMON_NOTE, 'bounded-exhaustive explicit-state enumeration of connected labelled graphs through writer and reader (round-trip oracle)',
+    'DESIGN.md section 4 C07')
+
 NOT_YET = {}
 
 def main():
